@@ -3,6 +3,7 @@ package main
 // SMT-LIB2 emission and a persistent solver process (z3 -in / cvc5 --incremental).
 
 import (
+	"sync/atomic"
 	"bufio"
 	"os"
 	"fmt"
@@ -28,6 +29,26 @@ type Solver struct {
 	Time    time.Duration
 	log     io.Writer
 	dead    bool
+	// optional second solver: every crossEvery-th definite verdict is re-decided by it; a
+	// definite, different answer turns the verdict into unknown (reported as inconclusive)
+	cross      *Solver
+	crossEvery int
+	crossN     int
+}
+
+// cross-solver statistics of the whole run
+var crossCompared, crossAgreed, crossDisagreed, crossSecondUnknown int64
+
+// AttachCross starts a second solver of the given kind next to s.
+func (s *Solver) AttachCross(name string, every int, timeoutMs int) error {
+	c, err := NewSolver(name, s.tb, timeoutMs)
+	if err != nil {
+		return err
+	}
+	c.log = nil
+	s.cross = c
+	s.crossEvery = every
+	return nil
 }
 
 func solverArgs(name string, timeoutMs int) (string, []string) {
@@ -83,6 +104,9 @@ func (s *Solver) Close() {
 	if s == nil || s.cmd == nil {
 		return
 	}
+	if s.cross != nil {
+		s.cross.Close()
+	}
 	s.in.Close()
 	done := make(chan struct{})
 	go func() { s.cmd.Wait(); close(done) }()
@@ -95,6 +119,9 @@ func (s *Solver) Close() {
 
 // Reset forgets everything (new term builder per configuration).
 func (s *Solver) Reset(tb *TB) {
+	if s.cross != nil {
+		s.cross.Reset(tb)
+	}
 	s.tb = tb
 	s.emitted = map[int32]bool{}
 	if s.name == "cvc5" {
@@ -364,6 +391,24 @@ done:
 		}
 	}
 	io.WriteString(s.in, "(pop 1)\n")
+	if s.cross != nil && verdict != VUnknown {
+		s.crossN++
+		if s.crossN%s.crossEvery == 0 && !s.cross.dead {
+			v2, _, _ := s.cross.Check(asserts, side, nil)
+			atomic.AddInt64(&crossCompared, 1)
+			switch {
+			case v2 == VUnknown:
+				atomic.AddInt64(&crossSecondUnknown, 1)
+			case v2 == verdict:
+				atomic.AddInt64(&crossAgreed, 1)
+			default:
+				atomic.AddInt64(&crossDisagreed, 1)
+				note = fmt.Sprintf("solver disagreement: %s answers %s, %s answers %s", s.name, verdict, s.cross.name, v2)
+				verdict = VUnknown
+				model = nil
+			}
+		}
+	}
 	switch verdict {
 	case VUnsat:
 		s.Unsat++
